@@ -1544,8 +1544,12 @@ class ComplexModulus(Operator):
                         """Implement ``self(u, out)``."""
                         out.assign(x)
                         tmp = u / op(x)
-                        out.real *= tmp
-                        out.imag *= tmp
+                        if out.space.is_real:
+                            # No imaginary part to scale in real spaces
+                            out *= tmp
+                        else:
+                            out.real *= tmp
+                            out.imag *= tmp
                         return out
 
                     @property
@@ -1739,8 +1743,12 @@ class ComplexModulusSquared(Operator):
                     def _call(self, u, out):
                         """Implement ``self(u, out)``."""
                         out.assign(x)
-                        out.real *= u
-                        out.imag *= u
+                        if out.space.is_real:
+                            # No imaginary part to scale in real spaces
+                            out *= u
+                        else:
+                            out.real *= u
+                            out.imag *= u
                         out *= 2
                         return out
 
